@@ -10,7 +10,7 @@ use std::collections::BTreeSet;
 use std::sync::atomic::{AtomicU64, Ordering};
 use std::sync::{Arc, Mutex};
 
-const CALLS: [(&str, &str); 8] = [
+const CALLS: [(&str, &str); 10] = [
   ("All", r#"{A: 5, S: "abcz"}"#),
   ("Quote", r#"{A: 500, S: "xyz"}"#),
   ("All", r#"{A: 42, S: "aeiouz"}"#),
@@ -19,6 +19,8 @@ const CALLS: [(&str, &str); 8] = [
   ("Quote", r#"{A: 42, S: "aeiouz"}"#),
   ("Many", r#"{S: "abcz"}"#),
   ("Many", r#"{S: "xyz"}"#),
+  ("Three", r#"{A: 5}"#),
+  ("Three", r#"{A: 42}"#),
 ];
 
 fn ctx(text: &str) -> FeelContext {
